@@ -433,6 +433,15 @@ def r04_7(run):
             chain = g.nodes_where(lambda n: any(isinstance(a, ast.Call) and callee_attr(a) == 'addCallback' and dotted(receiver(a)) == nm and a.args and dotted(a.args[0]) == want
                                                 for a in node_asts(n)))
             between = g.reachable([s_ for _, s_ in dn.succ], avoid=lambda n: n in chain, follow_exc=False)
+            if want == 'self._do_password_authentication':
+                # the provider may answer with (a Deferred firing with) a coroutine: it is awaited before the password is judged
+                co = g.nodes_where(lambda n: any(isinstance(a, ast.Call) and callee_attr(a) == 'addCallback' and dotted(receiver(a)) == nm and a.args and
+                                                 (dotted(a.args[0]) or '').split('.')[-1] == 'maybe_coroutine' for a in node_asts(n)))
+                unawaited = g.reachable([s_ for _, s_ in dn.succ], avoid=lambda n: n in co, follow_exc=False)
+                run.ob('R04.7', da, rn.ast, 'a coroutine answer of the password provider is awaited before it is used', not any(c in unawaited for c in chain) and bool(co),
+                       slot='password-coroutine-awaited',
+                       message='_do_authenticate hands the password provider\'s answer to _do_password_authentication without passing it through maybe_coroutine: '
+                               'an async password_function yields a coroutine object that is sent (or refused) as the password')
             run.ob('R04.7', da, rn.ast, 'the %s leg continues into %s' % (src(v)[:40], want), rn not in between, slot='leg-continues:%s' % src(v)[:30],
                    message='_do_authenticate returns the Deferred of %s without %s chained behind it: authentication succeeds but the bootstrap never '
                            'runs and the ready notification never fires' % (src(v)[:40], want))
@@ -568,6 +577,8 @@ RULES = [
 from ..selftest import M  # noqa: E402
 F = 'txtorcon/torcontrolprotocol.py'
 MUTANTS = [
+    M('password-coroutine-not-awaited', F, "            d.addCallback(maybe_coroutine)\n            d.addCallback(self._do_password_authentication)", "            d.addCallback(self._do_password_authentication)", ['R04.7']),
+    M('password-coroutine-awaited-late', F, "            d.addCallback(maybe_coroutine)\n            d.addCallback(self._do_password_authentication)", "            d.addCallback(self._do_password_authentication)\n            d.addCallback(maybe_coroutine)", ['R04.7']),
     M('empty-password-sent', F, "        if not passwd:\n            raise RuntimeError(\"No password available.\")", "        if passwd is None:\n            raise RuntimeError(\"No password available.\")", ['R04.8']),
     M('cookie-leg-no-bootstrap', F, "                d = self.authenticate(self._cookie_data)\n                d.addCallback(self._bootstrap)\n", "                d = self.authenticate(self._cookie_data)\n", ['R04.7']),
     M('safecookie-leg-no-bootstrap', F, "                d.addCallback(self._safecookie_authchallenge)\n                d.addCallback(self._bootstrap)\n", "                d.addCallback(self._safecookie_authchallenge)\n", ['R04.7']),
